@@ -97,4 +97,15 @@ contract(f'{TC}::_WindSock.vector_for_range', props=('C12',),
               f'forall(0, self.current, lambda i: {UNTIL.format(k="i")} <= next_range)'),
              ('returns-the-wind-in-force', 'result.x == self._last_vector_cache.x and result.y == self._last_vector_cache.y '
                                            'and result.z == self._last_vector_cache.z')],
-         modifies=['self.current', 'self.next_range', 'self._last_vector_cache'])
+         modifies=['self.current', 'self.next_range', 'self._last_vector_cache'], modular=True, result_shape=VEC)
+
+
+# primary contract of Shot.winds (used at call sites): any number of winds, result ordered by until-distance
+WINDF = Obj(C.Wind, velocity=QuantityF(U.Velocity, unit=Unit.FPS), direction_from=QuantityF(U.Angular, unit=Unit.Radian),
+            until_distance=QuantityF(U.Distance, unit=Unit.Foot, value=Real(lo=0, hi=9e8)), MAX_DISTANCE_FEET=Const(1e8))
+contract(f'{CF}::Shot.winds', which='getter', props=('C12', 'C10'),
+         params=dict(self=Obj(C.Shot, _winds=ListOf(WINDF, frozen=True))),
+         ensures=[('same-number-of-winds', 'len(result) == len(self._winds)'),
+                  ('ordered-by-until-distance', 'forall(0, len(result), lambda i: forall(i + 1, len(result), lambda j: '
+                                                'raw(result[i].until_distance) <= raw(result[j].until_distance)))')],
+         modifies=[], modular=True, result_shape=WTUPLE)
